@@ -201,7 +201,7 @@ func cmdCheck(args []string) int {
 	}
 	parallelDo(16, len(toSolve), func(i int) {
 		o := toSolve[i]
-		o.Result = solve(scratch, o.Name, o.Query, tmo, false)
+		o.Result = solve(scratch, o.Name, o.Query, tmo, o.Vacuity)
 	})
 	// classify
 	discharged := 0
